@@ -435,7 +435,9 @@ func systems() []*system {
 		}})
 
 	// ---- prm ---------------------------------------------------------------------------------
-	confLambda := coord{name: "lambda", kind: cEnum, labels: []string{"rand", "0", "2", "phi-1"}}
+	// lambda = 0 makes the public parameter s = t^0 = 1: a degenerate statement that parameter validation
+	// refuses by design (pedersen.ValidateParameters), so it is not a witness "inside the documented range"
+	confLambda := coord{name: "lambda", kind: cEnum, labels: []string{"rand", "3", "2", "phi-1"}} // (lambda = 1 gives s = t, refused as well)
 	l = append(l, &system{name: "prm", conf: []coord{confKeys3, confLambda}, chunks: 3, chunkT: 8, noRange: "responses are residues",
 		build: func(pt point) *statement {
 			ks := keysetByName(pt["keys"])
@@ -443,8 +445,8 @@ func systems() []*system {
 			N := ks.pk.N()
 			var lam *saferith.Nat
 			switch pt["lambda"] {
-			case "0":
-				lam = natFromBig(big.NewInt(0))
+			case "3":
+				lam = natFromBig(big.NewInt(3))
 			case "2":
 				lam = natFromBig(big.NewInt(2))
 			case "phi-1":
